@@ -182,7 +182,7 @@ func RunPlan(pr *Profile, p *Plan, keep bool) *Outcome {
 			e.DialFaults[k] = v
 		}
 		e.Begin()
-		w = &World{Env: e, Plan: p, filterOpt: newFilterOpt()}
+		w = &World{Env: e, Plan: p, filterOpt: newFilterOpt(), sharedScanOpts: newSharedScanOpts()}
 		resetTableSlices()
 		w.root, w.stop = context.WithCancel(context.Background())
 		if p.Client.Admin {
